@@ -1,2 +1,107 @@
-import RV.Proofs.Field
-import RV.Model.Gravity
+import RV.Proofs.GravityLaws
+/-
+  C02 — every force routine computes the specified pairwise Newtonian sum.
+
+  Statements are about the loop nests in RV/Model/Gravity.lean (the same definitions the
+  driver `drv_c02` runs on IEEE doubles against `reb_calculate_acceleration`),
+  instantiated at an arbitrary field `K` (exact arithmetic).  Particle sets are
+  `mkPs N m x` — the array of `N` bodies with masses `m i` and positions `x i`; every
+  array is of this form (`c02_every_array`).  The scalar kernel (`G/r³` as a function of
+  `r² + ε²`, times the routine's weight) is an arbitrary function: nothing about `sqrt`
+  is used.  Quantification: every N, N_active ≤ N, testparticle_type, gravity_ignore_terms
+  ∈ {0,1,2}, ghost-box counts, masses (zero allowed), positions.
+-/
+set_option linter.unusedTactic false
+set_option linter.unreachableTactic false
+set_option linter.unnecessarySeqFocus false
+set_option linter.unusedVariables false
+set_option linter.unusedSectionVars false
+namespace RV.Gravity
+open RV
+variable {K : Type} [Field K]
+
+/-- every particle array is `mkPs` of its size and accessor functions: the theorems below
+    quantify over all arrays -/
+theorem c02_every_array (ps : Array (Body K)) :
+    ∃ (m : Nat → K) (x : Nat → V3 K), ps = mkPs ps.size m x :=
+  ⟨_, _, mkPs_surj ps⟩
+
+/-- the declarative pair term: `force … gb k j = -(pref(|d|²+ε²) · m_j) · d`, `d = gb + x_k - x_j` -/
+theorem c02_force_def (pref : K → Nat → Nat → K) (soft2 : K) (m : Nat → K) (x : Nat → V3 K)
+    (gb : V3 K) (k j : Nat) :
+    force pref soft2 m x gb k j
+      = (-(pref (((gb + x k) - x j).x * ((gb + x k) - x j).x + ((gb + x k) - x j).y * ((gb + x k) - x j).y
+            + ((gb + x k) - x j).z * ((gb + x k) - x j).z + soft2) k j) * m j) • ((gb + x k) - x j) := rfl
+
+/-! ### BASIC -/
+
+/-- BASIC (gravity.c:139-247), with the ghost-box triple loop of boundary.c: the acceleration
+    of every particle `k` is the sum over ghost boxes and over the *declarative* source set
+    `Src` (active `j ≠ k`; test particles `j` as well when `testparticle_type = 1` and `k` is
+    active; minus the pairs named by `gravity_ignore_terms`) of the softened pair term.
+    An off-by-one in `starti`, `startj`, `MAX(_N_active,starti)` or an inner bound makes
+    `src_iff` (and hence this theorem) fail. -/
+theorem c02_basic_sources (kern : K → K) (cfg : Cfg K) (shifted : Bool) (bs : V3 K)
+    (nx ny nz N : Nat) (m : Nat → K) (x : Nat → V3 K) (hNa : cfg.nActive ≤ N)
+    (hig : cfg.ignore ≤ 2) (k : Nat) (hk : k < N) :
+    (accBasic (fun s _ _ => kern s) cfg (ghostList shifted bs nx ny nz) (mkPs N m x))[k]?
+      = some (((ghostList shifted bs nx ny nz).map fun gb => ∑ j ∈ Finset.range N,
+          if Src cfg.nActive cfg.tpType cfg.ignore k j
+          then force (fun s _ _ => kern s) (cfg.soft * cfg.soft) m x gb k j else 0).sum) :=
+  accBasic_declarative _ (fun _ _ _ => rfl) cfg _ (ghostList_symm shifted bs nx ny nz) m x hNa hig hk
+
+/-- without ghost boxes the ghost list is the single zero shift -/
+theorem c02_no_ghosts (shifted : Bool) (bs : V3 K) : ghostList shifted bs 0 0 0 = [0] :=
+  ghostList_zero shifted bs
+
+/-- Newton's third law for BASIC: if every particle is active the mass-weighted accelerations
+    sum to zero — for every kernel, every ghost list, every `gravity_ignore_terms`. -/
+theorem c02_basic_newton3 (pref : K → Nat → Nat → K) (cfg : Cfg K) (ghosts : List (V3 K)) (N : Nat)
+    (m : Nat → K) (x : Nat → V3 K) (hall : cfg.nActive = N) (a : Nat → V3 K)
+    (ha : ∀ k, k < N → (accBasic pref cfg ghosts (mkPs N m x))[k]? = some (a k)) :
+    ∑ k ∈ Finset.range N, m k • a k = 0 := by
+  have e : ∀ k ∈ Finset.range N, m k • a k
+      = m k • ((ghosts.map fun gb => boxC pref cfg N m x gb k).sum) := by
+    intro k hk
+    have hk' := Finset.mem_range.mp hk
+    have h1 := ha k hk'
+    rw [accBasic_get pref cfg ghosts m x (by omega) hk'] at h1
+    rw [Option.some.inj h1]
+  rw [Finset.sum_congr rfl e]
+  apply sum_smul_list N (fun k v => m k • v) (by simp) (by simp [smul_add])
+  intro gb _
+  apply boxC_allactive (fun k v => m k • v) (by simp) (by simp [smul_add]) pref cfg m x gb hall
+  intro i j hi hj
+  exact pairC_balanced pref _ m x gb hi hj
+
+/-- total torque for BASIC: every particle active and no ghost shift ⇒ `Σ m_k x_k × a_k = 0` -/
+theorem c02_basic_torque (pref : K → Nat → Nat → K) (cfg : Cfg K) (N : Nat)
+    (m : Nat → K) (x : Nat → V3 K) (hall : cfg.nActive = N) (a : Nat → V3 K)
+    (ha : ∀ k, k < N → (accBasic pref cfg [0] (mkPs N m x))[k]? = some (a k)) :
+    ∑ k ∈ Finset.range N, m k • V3.cross (x k) (a k) = 0 := by
+  have e : ∀ k ∈ Finset.range N, m k • V3.cross (x k) (a k)
+      = m k • V3.cross (x k) ((([0] : List (V3 K)).map fun gb => boxC pref cfg N m x gb k).sum) := by
+    intro k hk
+    have hk' := Finset.mem_range.mp hk
+    have h1 := ha k hk'
+    rw [accBasic_get pref cfg [0] m x (by omega) hk'] at h1
+    rw [Option.some.inj h1]
+  rw [Finset.sum_congr rfl e]
+  apply sum_smul_list N (fun k v => m k • V3.cross (x k) v) (by simp [V3.cross_zero])
+    (by simp [V3.cross_add, smul_add])
+  intro gb hgb
+  have : gb = 0 := by simpa using hgb
+  subst this
+  apply boxC_allactive (fun k v => m k • V3.cross (x k) v) (by simp [V3.cross_zero])
+    (by simp [V3.cross_add, smul_add]) pref cfg m x 0 hall
+  intro i j hi hj
+  exact pairC_torque pref _ m x hi hj
+
+/-! ### non-vacuity: a concrete 4-body configuration over ℚ with one test particle, a
+    zero-mass active body, gravity_ignore_terms = 1 and one ghost ring meets every hypothesis;
+    the source set is neither empty nor full. -/
+example : (⟨3, true, 1, (1 : ℚ) / 10⟩ : Cfg ℚ).nActive ≤ 4 ∧ (⟨3, true, 1, (1 : ℚ) / 10⟩ : Cfg ℚ).ignore ≤ 2
+    ∧ Src 3 true 1 2 3 ∧ ¬ Src 3 true 1 0 1 ∧ ¬ Src 3 false 1 2 3 ∧ Src 3 true 1 3 0 := by
+  refine ⟨by decide, by decide, ?_, ?_, ?_, ?_⟩ <;> unfold Src <;> decide
+
+end RV.Gravity
